@@ -215,7 +215,16 @@ pub fn generate(seed: u64, _prop: &str, _thorough: bool) -> GarbageTrace {
     let cfg = if bias.chance(1, 2) { bias.usize(4) } else { bias.usize(CONFIGS.len()) };
     let (wb, sb) = CONFIGS[cfg];
     let coder = *bias.pick(&[CoderKind::AnsCompressed, CoderKind::AnsBinary, CoderKind::Range, CoderKind::Range, CoderKind::ChainBinary, CoderKind::ChainCompressed]);
-    let menu = menu_for_word(wb);
+    let mut menu = menu_for_word(wb);
+    if bias.chance(1, 3) {
+        // swarm: a run at the highest precision this word size offers (where float rounding
+        // in lazily quantised and fast-constructed models has the least slack)
+        let top = menu.iter().filter(|(pb, _)| *pb as u32 == wb.min(32)).map(|(_, p)| *p).max();
+        if let Some(top) = top {
+            let f: Vec<(u8, u8)> = menu.iter().cloned().filter(|(pb, p)| *pb as u32 == wb.min(32) && *p == top).collect();
+            if !f.is_empty() { menu = f; }
+        }
+    }
     let chain = matches!(coder, CoderKind::ChainBinary | CoderKind::ChainCompressed);
     let p0 = rng.pick(&menu).1;
     let n_models = 1 + rng.usize(4);
@@ -227,7 +236,10 @@ pub fn generate(seed: u64, _prop: &str, _thorough: bool) -> GarbageTrace {
         // emphasis on library models, lookup tables and lazily quantised models
         let spec = gen_spec(&mut rng, pb, p, max_syms, 75);
         let decs = reprs_for(&spec).1;
-        let repr = if bias.chance(2, 3) {
+        let repr = if decs.contains(&Repr::Lazy) && bias.chance(1, 2) {
+            // the property names lazily quantised models explicitly
+            Repr::Lazy
+        } else if bias.chance(2, 3) {
             let pref: Vec<Repr> = decs.iter().cloned().filter(|r| matches!(r, Repr::Lookup | Repr::GenLookup | Repr::Lazy | Repr::GenDec | Repr::LookupCtor | Repr::NonContigLookupCtor | Repr::NonContigLookupBack)).collect();
             if pref.is_empty() { *rng.pick(&decs) } else { *rng.pick(&pref) }
         } else {
@@ -257,7 +269,36 @@ pub fn generate(seed: u64, _prop: &str, _thorough: bool) -> GarbageTrace {
     let n_dec = rng.len(10, 40);
     let mut decodes: Vec<usize> = (0..n_dec).map(|_| rng.usize(n_models)).collect();
     let word = |rng: &mut Rng| rng.word(wb);
-    let (data, origin): (Vec<u64>, &str) = match frng.below(10) {
+    let (data, origin): (Vec<u64>, &str) = match frng.below(12) {
+        10 | 11 => {
+            // words whose low or high P bits are a quantile on (or a few quanta next to) the
+            // boundary between two symbols of one of the models: the decoders' quantiles are
+            // cut out of the words at exactly these places
+            let n = frng.len(6, 24);
+            // mostly one model for the whole stream, and the consumer uses that model: every
+            // word then meets the model whose boundary it sits on
+            let star = if frng.chance(2, 3) { Some(frng.usize(n_models)) } else { None };
+            if let Some(ms) = star {
+                decodes = vec![ms; n + 2];
+            }
+            let words = (0..n).map(|_| {
+                let m = star.unwrap_or_else(|| frng.usize(plain.len()));
+                let b = &plain[m];
+                let s = pick_symbol(&mut frng, b);
+                let (cum, prob) = b.lcp64(s).expect("support symbol");
+                let p = b.p as u32;
+                let pm = mask64(p);
+                let d = match frng.below(4) { 0 | 1 => 0, 2 => frng.below(4), _ => frng.below(400) };
+                let q = match frng.below(4) {
+                    0 | 1 => cum.wrapping_add(prob).wrapping_sub(1).wrapping_sub(d.min(prob - 1)),
+                    2 => cum.wrapping_add(d.min(prob - 1)),
+                    _ => cum.wrapping_add(prob),
+                } & pm;
+                let r = frng.next_u64();
+                (if p >= wb { q } else if frng.chance(1, 2) { q | (r << p) } else { (q << (wb - p)) | (r & mask64(wb - p)) }) & mask64(wb)
+            }).collect();
+            (words, "boundary-quantiles")
+        }
         0 => ((0..frng.len(6, 24)).map(|_| frng.next_u64() & mask64(wb)).collect(), "random"),
         1 => (vec![0; frng.len(4, 16)], "zeros"),
         2 => (vec![mask64(wb); frng.len(4, 16)], "ones"),
